@@ -956,7 +956,7 @@ pub fn check(prop: &dyn Property, all: &dyn Fn(&str) -> Option<&'static dyn Prop
         "wall_s": wall,
         "violations": if violation.is_some() { 1 } else { 0 },
     });
-    let evdir = root.join("evidence");
+    let evdir = evidence_dir(&root);
     std::fs::create_dir_all(&evdir).ok();
     std::fs::write(evdir.join(format!("{id}.json")), serde_json::to_string_pretty(&ev).unwrap()).expect("write evidence");
 
@@ -1042,6 +1042,16 @@ pub fn load_replay(path: &Path) -> Option<ReplayFile> {
     serde_json::from_slice(&b).ok()
 }
 
+/// Evidence goes to `<verif>/evidence` unless `VERIF_EVIDENCE_DIR` redirects it: the self-test
+/// scripts run checks against deliberately broken copies of the library and must not overwrite
+/// the evidence of the unchanged tree.
+fn evidence_dir(root: &Path) -> PathBuf {
+    match std::env::var("VERIF_EVIDENCE_DIR") {
+        Ok(d) if !d.is_empty() => PathBuf::from(d),
+        _ => root.join("evidence"),
+    }
+}
+
 fn write_evidence_violation(root: &Path, prop: &dyn Property, args: &CheckArgs, t0: Instant, replay: &Path, fl: &Failure) {
     let ev = serde_json::json!({
         "property_id": prop.id(),
@@ -1058,7 +1068,7 @@ fn write_evidence_violation(root: &Path, prop: &dyn Property, args: &CheckArgs, 
         "wall_s": t0.elapsed().as_secs_f64(),
         "violations": 1,
     });
-    let evdir = root.join("evidence");
+    let evdir = evidence_dir(root);
     std::fs::create_dir_all(&evdir).ok();
     let _ = std::fs::write(evdir.join(format!("{}.json", prop.id())), serde_json::to_string_pretty(&ev).unwrap());
 }
